@@ -102,7 +102,7 @@ def run(module, cfg=None, mode="bfs", workers=8, num=100, depth=60, seed=0, time
             with open(keep, "w") as fh:
                 fh.write(p.stdout)
         if res.violation is None and p.returncode != 0:
-            tail = "\n".join(p.stdout.splitlines()[-40:])
+            lines = p.stdout.splitlines(); errs = [l for l in lines if "rror" in l or "xception" in l or "verflow" in l][:12]; tail = "\n".join(errs + ["..."] + lines[-12:])
             raise TLCError("TLC exit %d\n%s" % (p.returncode, tail))
         return res
     finally:
